@@ -3,6 +3,7 @@ import AaVerif.Ref.GrammarPtrace
 import AaVerif.Ref.GrammarSignal
 import AaVerif.Ref.GrammarRlimit
 import AaVerif.Ref.GrammarChangeProfile
+import AaVerif.Ref.GrammarLink
 import AaVerif.Aa.Parse
 import AaVerif.Aa.Sort
 import AaVerif.Generated.AaTables
@@ -285,5 +286,26 @@ theorem C12_change_profile_all (audit deny : Bool) (m e t : Text)
 example : Ref.read T (renderRule (Aa.Parse.cpRule false true (S "safe") (S "/usr/bin/foo") (S "foo//bar")) (padOf []))
     = some (mkR "change_profile" { audit := false, deny := true, owner := false } [.s (S "safe"), .s (S "/usr/bin/foo"), .s (S "foo//bar")]) :=
   C12_change_profile_all false true _ _ _ (Or.inr (by decide +kernel)) (by decide +kernel) (by decide +kernel) (by decide +kernel)
+
+/-! ## Link rules, symbolically -/
+
+/-- **Every printed link rule with a target**: every qualifier, owner and subset flag, every keyword-like word the
+reference syntax takes for a path, as the link and as its target: the reader finds both flags and both paths
+(a link rule without a target is the known finding `K_linkNoTarget`) -/
+theorem C12_link_all (audit deny owner subset : Bool) (a b : Text)
+    (hca : Aa.Parse.CapW a) (ha : Ref.isPathTok a = true) (hcb : Aa.Parse.CapW b) (hb : Ref.isPathTok b = true) :
+    Ref.read T (renderRule (Aa.Parse.linkRule audit deny owner subset a b) (padOf [])) =
+      some (mkR "link" { audit := audit, deny := deny, owner := owner } [.b owner, .b subset, .s a, .s b]) := by
+  refine read_link T audit deny owner subset a b hca ha ?_ hcb hb
+  cases hc : a == S "subset" with
+  | false => rfl
+  | true =>
+    have e : a = S "subset" := by simpa using hc
+    rw [e] at ha
+    exact absurd ha (by decide)
+
+example : Ref.read T (renderRule (Aa.Parse.linkRule false false true true (S "/etc/a*") (S "/var/lib/b")) (padOf []))
+    = some (mkR "link" { audit := false, deny := false, owner := true } [.b true, .b true, .s (S "/etc/a*"), .s (S "/var/lib/b")]) :=
+  C12_link_all false false true true _ _ (by decide +kernel) (by decide +kernel) (by decide +kernel) (by decide +kernel)
 
 end C12
